@@ -8,6 +8,15 @@ use hecs::*;
 use std::any::TypeId;
 use std::panic::{catch_unwind, AssertUnwindSafe};
 
+/// dropped only by a builder's clear: the destructor unwinds
+#[derive(Clone)]
+struct Bomb;
+impl Drop for Bomb {
+    fn drop(&mut self) {
+        std::panic::panic_any(77u64);
+    }
+}
+
 fn type_index(id: TypeId) -> u64 {
     let ids = [
         TypeId::of::<C0>(),
@@ -113,10 +122,20 @@ impl Engine {
             }
             52 | 61 => {
                 let s = r.next() as usize;
-                if opc == 52 {
-                    self.eb[s].clear()
+                // the clear is made to unwind: a last component whose destructor panics is added first (a zero-sized
+                // type of alignment 1: no arena growth). It sits at the end of the slot list, so every other value
+                // has been dropped when it goes off, and the builder must be left as empty as after a quiet clear.
+                let r = if opc == 52 {
+                    self.eb[s].add(Bomb);
+                    let b = &mut self.eb[s];
+                    catch_unwind(AssertUnwindSafe(|| b.clear()))
                 } else {
-                    self.ebc[s].clear()
+                    self.ebc[s].add(Bomb);
+                    let b = &mut self.ebc[s];
+                    catch_unwind(AssertUnwindSafe(|| b.clear()))
+                };
+                if r.is_ok() {
+                    out.flag("C03: clearing a builder did not drop its last component".to_string());
                 }
                 self.emit_c(&mut obs, 0, &[], out);
             }
